@@ -6,7 +6,7 @@ import Pko.Props.C01
 import Pko.Props.C05
 
 namespace Pko.Lemmas.ObjectSet
-open Pko.Kube Pko.Model.Phase Pko.Model.ObjectSet
+open Pko.Kube Pko.Model.Phase Pko.Model.ObjectSet Pko.Model.Status
 
 /-- The object loop of `reconcilePhaseObjs` is the object loop of `reconcilePhase` plus the
 collection of returned objects. -/
